@@ -1433,7 +1433,7 @@ fn ceil_large(em: &mut Em, rng: &mut Rng) {
 }
 
 pub fn run(em: &mut Em, rng: &mut Rng) {
-    let (hist, nmax, maxlen) = if em.thorough() { (150000, 24, 12) } else { (15000, 10, 6) };
+    let (hist, nmax, maxlen) = if em.thorough() { (150000, 24, 12) } else { (30000, 12, 6) };
     for _ in 0..hist {
         history(em, rng, nmax, maxlen);
     }
